@@ -178,6 +178,10 @@ func runL1Script(script []c18Op) (trace string, bridges int) {
 	}
 	gs := e.K.ExportGenesis(e.Ctx)
 	fmt.Fprintf(&sb, "EXPORT %s\n", e.Enc.Marshaler.MustMarshalJSON(gs))
+	// a fresh node started from that genesis
+	n := importL1(e, gs)
+	fmt.Fprintf(&sb, "REIMPORT-EXPORT %s\n", n.Enc.Marshaler.MustMarshalJSON(n.K.ExportGenesis(n.Ctx)))
+	fmt.Fprintf(&sb, "REIMPORT-DUMP\n%s", dumpString(n.Dump()))
 	fmt.Fprintf(&sb, "DUMP\n%s", dumpString(e.Dump()))
 	return sb.String(), len(gs.Bridges)
 }
@@ -339,7 +343,11 @@ func runL2Script(script []c18Op) (trace string, maxLeaving int, oracleUpdates in
 					prices[id] = bz
 				}
 				ext, _ := c15VeCodec.Encode(vetypes.OracleVoteExtension{Prices: prices})
-				sig, _ := v.priv.Sign(c15SignBytes(c15ChainID, 5, 1, ext))
+				signHeight := int64(5)
+				if op.B%5 == 4 && vi >= 1 {
+					signHeight = 4 // several votes in this commit do not verify: the update is refused, everywhere with the same error
+				}
+				sig, _ := v.priv.Sign(c15SignBytes(c15ChainID, signHeight, 1, ext))
 				votes = append(votes, cometabci.ExtendedVoteInfo{Validator: cometabci.Validator{Address: v.addr, Power: v.power}, VoteExtension: ext, ExtensionSignature: sig, BlockIdFlag: cmtproto.BlockIDFlagCommit})
 			}
 			data, _ := c15EcCodec.Encode(cometabci.ExtendedCommitInfo{Round: 1, Votes: votes})
@@ -351,7 +359,17 @@ func runL2Script(script []c18Op) (trace string, maxLeaving int, oracleUpdates in
 		}
 	}
 	endBlock()
-	fmt.Fprintf(&sb, "EXPORT %s\n", l2.Enc.Marshaler.MustMarshalJSON(l2.K.ExportGenesis(l2.Ctx)))
+	exported := l2.Enc.Marshaler.MustMarshalJSON(l2.K.ExportGenesis(l2.Ctx))
+	fmt.Fprintf(&sb, "EXPORT %s\n", exported)
+	// a fresh node started from that genesis: the validator updates it hands to the consensus engine
+	n := henv.NewL2(henv.L2Options{Admin: admin.Str, Executors: []string{exec.Str}})
+	n.Ctx = n.Ctx.WithBlockHeight(l2.Ctx.BlockHeight()).WithBlockTime(l2.Ctx.BlockTime())
+	n.AK.InitGenesis(n.Ctx, *l2.AK.ExportGenesis(l2.Ctx))
+	n.BK.InitGenesis(n.Ctx, l2.BK.ExportGenesis(l2.Ctx))
+	var g2 opchildtypes.GenesisState
+	n.Enc.Marshaler.MustUnmarshalJSON(exported, &g2)
+	fmt.Fprintf(&sb, "REIMPORT-UPDATES [%s]\n", renderUpdates(n.K.InitGenesis(n.Ctx, &g2)))
+	fmt.Fprintf(&sb, "REIMPORT-DUMP\n%s", dumpString(n.Dump()))
 	fmt.Fprintf(&sb, "DUMP\n%s", dumpString(l2.Dump()))
 	return sb.String(), maxLeaving, oracleUpdates
 }
